@@ -188,29 +188,7 @@ def main():
                                design_ref=c['design']),
             level_note=c['note'],
             technique=c['technique']))
-    na = [dict(property_id=p, reason=NA.get(p, CHECKS['C19'] = dict(
-    text='(b) the real create_integration_pull_requests / get_or_create_pull_request / get_pull_request_from_list as an '
-         'inductive step on a host with up to 2 (thorough 3) pull requests whose source, destination and status are symbolic: '
-         'exactly one open integration PR per target beyond the first afterwards, titled after the parent; (a) the real '
-         'create_integration_branches on symgit creates exactly w/<version>/<source> for the targets beyond the first; (d) the '
-         'real handle_declined_pull_request declines exactly the open integration PRs of the parent and deletes exactly its '
-         'integration branches; (c) the parent id is the first digit run of the rendered description (z3 string query on the '
-         'live template) and commit events on w/ or source tips resolve to the parent PR.',
-    note='Partial: orders and multiplicities of events over whole histories are not explored (each routine is checked as a step '
-         'from an arbitrary state). Name injectivity comes from C18.',
-    design='3/C19', technique=TECH)
-CHECKS['C20'] = dict(
-    text='The real create_branch, delete_branch, delete_queues and rebuild_queues jobs run on a symgit repository (symbolic commit '
-         'graph and ref tips; enumerated ref/tag sets, branch names around the existing ones, branch_from absent / a branch / a '
-         'symbolic commit, queued PR present or not, queues on/off). z3 decides per path: a new destination is published only if not '
-         'archived, cascade-valid, C01 holds on the new cascade and no queued PR needs new intermediate branches; delete refuses iff '
-         'queued PRs / live stabilization / archived and otherwise tags the deleted tip first; refusing jobs leave the remote '
-         'untouched; queue jobs touch only q/* and rebuild re-submits exactly the queued PRs.',
-    note='Partial: states reachable only through whole histories. One witness per configuration is re-run on a real repository with '
-         '/usr/bin/git (outcome and remote change compared).',
-    design='3/C20', technique=TECH_GIT)
-
-NA_REASON)) for p in ALL if p not in CHECKS]
+    na = [dict(property_id=p, reason=NA.get(p, NA_REASON)) for p in ALL if p not in CHECKS]
     man = dict(
         version=1,
         setup_cmd='./vsetup',
